@@ -34,6 +34,7 @@ RULE = (
     ' Round 9: `hang k` (the k-th write of the next received line never completes; the listener is cancelled).'
     ' Round 10: an equal command parked again after an earlier wake delivered it (enumerated).'
     ' Round 11: environment sweep (see C03), judged on sendwrites, flush and writes: reboot flag on a sleeping node, children of sensor types outside the tables.'
+    ' Round 12: `concurrent` kind (several tasks send equal / different messages through gated writes); process-clock jumps between hold and wake; pass under `python -O`.'
 )
 ASSUMPTIONS = [
     "for protocols 1.4/1.5, which have no wake message, 'next wake' is observed after the gateway reports 2.2.0 and the node sends a pre-sleep notification",
